@@ -623,9 +623,16 @@ func opaqueConsumer(v ssa.Value) ssa.Instruction {
 					continue // len, copy, …
 				}
 				switch qualName(x) {
-				case "strings.Join":
+				case "strings.Join", "fmt.Sprint", "strings.Clone":
 					walk(x, d+1)
-				case "strings.Builder.WriteString", "bytes.Buffer.WriteString", "strings.Builder.Write", "bytes.Buffer.Write":
+				case "fmt.Sprintf":
+					// transparent when the format prints its arguments as they are (%s, %v only)
+					if f, ok := constString(x.Call.Args[0]); ok && !strings.ContainsAny(strings.NewReplacer("%s", "", "%v", "", "%%", "").Replace(f), "%") {
+						walk(x, d+1)
+					} else if bad == nil {
+						bad = x
+					}
+				case "strings.Builder.WriteString", "bytes.Buffer.WriteString", "strings.Builder.Write", "bytes.Buffer.Write", "fmt.Fprint", "fmt.Fprintf", "io.WriteString":
 				default:
 					if bad == nil {
 						bad = x
@@ -727,17 +734,46 @@ func c20R4(r *Report) {
 				if a == nil {
 					continue
 				}
-				v := strip(a)
-				nEsc := 0
-				for d := 0; d < 4; d++ {
+				// the argument is a link: a builder's result, HTML-escaped some number of times, possibly through a
+				// helper of the package all of whose returns have the same form (href(path))
+				var linkForm func(v ssa.Value, d int) (int, *ssa.Call)
+				linkForm = func(v ssa.Value, d int) (int, *ssa.Call) {
+					v = strip(v)
 					cc, ok := v.(*ssa.Call)
-					if !ok || qualName(cc) != "html.EscapeString" {
-						break
+					if !ok || d > 4 {
+						return 0, nil
 					}
-					nEsc++
-					v = strip(cc.Call.Args[0])
+					if qualName(cc) == "html.EscapeString" {
+						n, bc := linkForm(cc.Call.Args[0], d+1)
+						return n + 1, bc
+					}
+					if bc := isBuilderCall(cc); bc != nil {
+						return 0, bc
+					}
+					h := cc.Call.StaticCallee()
+					if h == nil || h.Blocks == nil || relPkg(h) != "http" || cc.Call.IsInvoke() {
+						return 0, nil
+					}
+					n, first := -1, (*ssa.Call)(nil)
+					for _, ret := range returnsOf(h) {
+						if len(ret.Results) != 1 {
+							return 0, nil
+						}
+						if s, isS := constString(ret.Results[0]); isS && s == "" {
+							continue
+						}
+						k, bc := linkForm(ret.Results[0], d+1)
+						if bc == nil || (n >= 0 && k != n) {
+							return 0, nil
+						}
+						n, first = k, bc
+					}
+					if first == nil {
+						return 0, nil
+					}
+					return n, cc
 				}
-				bc := isBuilderCall(v)
+				nEsc, bc := linkForm(a, 0)
 				if bc == nil {
 					continue
 				}
